@@ -6,7 +6,8 @@ from .. import srctie
 import json
 
 REG_TIE_THEOREMS = ["sim_step", "sim_reach", "sim_reach_model", "sim_run", "C10_src_unique_live",
-                    "C10_src_getpid_iff_registered", "C10_src_one_winner_at_the_end", "C10_src_no_thread_blocks"]
+                    "C10_src_getpid_iff_registered", "C10_src_one_winner", "C10_src_one_winner_at_the_end",
+                    "C10_src_respawn_after_remove", "C10_src_no_thread_blocks"]
 REG_TIE_DEPS = ["Registry.v", "RegistryProofs.v", "RegSrcSem.v"]
 
 COQ_FILES = ["Registry.v", "RegistryProofs.v", "RegistryExec.v", "RegistrySound.v", "RespawnExec.v", "RespawnSound.v", "PropsRegistry.v"]
